@@ -2,7 +2,7 @@
    ToPURL/Ecosystem (inputs of the model), purl.FromString(p.String()) twice, packageindex,
    proto.ScanResultToProto, converter.ToSPDX23 and converter.ToCDX. No proofs. *)
 From Coq Require Import List NArith ZArith Bool.
-From Scalibr Require Import Convert.Bytes Convert.Generated_PurlTypes Convert.Purl Convert.Pkg
+From Scalibr Require Import Convert.Bytes Convert.Generated_PurlTypes Convert.Generated_ProtoMeta Convert.Purl Convert.Pkg
   Convert.Index Convert.Proto Convert.Sbom.
 Import ListNotations.
 
@@ -11,6 +11,8 @@ Record pkg_obs := {
   o_purl_str : bytes;            (* p.String() of the package's purl; [] without purl *)
   o_rt1 : option purl;           (* purl.FromString(p.String()) *)
   o_rt2 : option purl;           (* the same again on the result *)
+  o_meta : option meta_type;     (* dynamic type of Package.Metadata (None = nil) *)
+  o_proto_case : option bytes;   (* oneof case set in the result proto's metadata field *)
   o_specific : list nat;         (* GetSpecific(p.Name, p.Type), as positions *)
   o_of_type : list nat }.        (* GetAllOfType(p.Type), positions, sorted *)
 
@@ -61,7 +63,11 @@ Definition model_flags (c : ccase) : list bool :=
     index_model_ok c;
     outcome_eqb (list_eqb proto_pkg_eqb) (packages_to_proto (case_pstring c) (case_inv c)) (c_proto c);
     outcome_eqb spdx_doc_eqb (to_spdx (case_pstring c) (case_inv c)) (c_spdx c);
-    outcome_eqb (list_eqb cdx_comp_eqb) (to_cdx (case_pstring c) (case_inv c)) (c_cdx c) ].
+    outcome_eqb (list_eqb cdx_comp_eqb) (to_cdx (case_pstring c) (case_inv c)) (c_cdx c);
+    (* setProtoMetadata dispatch (only observable when the proto conversion did not panic) *)
+    match c_proto c with
+    | Ok _ => forallb (fun o => opt_eqb beq (set_proto_metadata_case (o_meta o)) (o_proto_case o)) (c_pkgs c)
+    | Panic => true end ].
 
 (* ---- oracle: the property, evaluated on the implementation's own outputs. Claimed for inventories of
    emitted packages (every package has its extractor); the known-finding domains restrict single clauses. *)
